@@ -287,6 +287,20 @@ impl VerifHeap {
         }
     }
 
+    /// Builds the list of the fixnums `0..n` with `sized_iter_to_heap_list`.
+    pub fn list_from_fixnums(&mut self, n: usize) -> bool {
+        crate::machine::heap::sized_iter_to_heap_list(
+            &mut self.heap,
+            n,
+            (0..n).map(|i| {
+                HeapCellValue::from_bytes(
+                    crate::parser::ast::Fixnum::build_with(i as i32).into_bytes(),
+                )
+            }),
+        )
+        .is_ok()
+    }
+
     /// Truncates to `cells` cells.
     pub fn truncate(&mut self, cells: usize) {
         self.heap.truncate(cells);
